@@ -1256,14 +1256,51 @@ func (g *gpass) noCapture(w *wrapper) (bool, string) {
 	if info == nil {
 		return false, "no type information for " + pkg.Pkg.Path()
 	}
+	// names that generated code declared in the wrapper's scope so far: any of
+	// them is in scope of - and would capture a like-named identifier of - a user
+	// expression hoisted after it, whether or not this program happens to use
+	// the name
+	var genDecl []string
+	noteDecl := func(st ast.Stmt) {
+		switch d := st.(type) {
+		case *ast.AssignStmt:
+			if d.Tok == token.DEFINE {
+				for _, l := range d.Lhs {
+					if id, ok := l.(*ast.Ident); ok && id.Name != "_" && !hoistedName.MatchString(id.Name) {
+						genDecl = append(genDecl, id.Name)
+					}
+				}
+			}
+		case *ast.DeclStmt:
+			if gd, ok := d.Decl.(*ast.GenDecl); ok {
+				for _, sp := range gd.Specs {
+					switch sp := sp.(type) {
+					case *ast.ValueSpec:
+						for _, n := range sp.Names {
+							if n.Name != "_" {
+								genDecl = append(genDecl, n.Name)
+							}
+						}
+					case *ast.TypeSpec:
+						genDecl = append(genDecl, sp.Name.Name)
+					}
+				}
+			}
+		}
+	}
 	for _, st := range lit.Body.List {
 		as, ok := st.(*ast.AssignStmt)
 		if !ok || as.Tok != token.DEFINE || len(as.Lhs) != 1 || len(as.Rhs) != 1 {
+			noteDecl(st)
 			continue
 		}
 		id, ok := as.Lhs[0].(*ast.Ident)
 		if !ok || !hoistedName.MatchString(id.Name) {
+			noteDecl(st)
 			continue
+		}
+		if len(genDecl) > 0 {
+			return false, fmt.Sprintf("generated code declares %s in the wrapper before the hoisted expression %s is evaluated: a user identifier of that name would be captured", strings.Join(genDecl, ", "), id.Name)
 		}
 		rhs := as.Rhs[0]
 		bad := ""
